@@ -10,6 +10,7 @@ from xf import AnchorLost
 
 HDR = ("use vstd::prelude::*;\n#[allow(unused_imports)]\nuse crate::vx::*;\n"
        "#[allow(unused_imports)]\nuse crate::dns::wire_format::*;\n#[allow(unused_imports)]\nuse vstd::std_specs::iter::IteratorSpec;\n"
+       "#[allow(unused_imports)]\nuse crate::dns::*;\n#[allow(unused_imports)]\nuse crate::dns::rdata::*;\n"
        "verus!{ broadcast use crate::vx::vx_axioms; }\n")
 
 RDATA_FILES = ['a', 'aaaa', 'afsdb', 'caa', 'cert', 'dhcid', 'dnskey', 'ds', 'eui', 'hinfo', 'ipseckey', 'isdn',
